@@ -33,7 +33,8 @@ SLOW = {"rdb", "cached_rdb", "grpc_rdb"}
 
 SAMPLERS = ["random", "tpe", "tpe_mv", "tpe_group", "tpe_liar", "nsgaii", "nsgaiii", "qmc", "qmc_ns", "gp", "grid",
             "brute", "partial"]
-PRUNERS = ["nop", "median", "pct25", "pct75", "sha", "hyperband", "patient_median", "patient_delta", "threshold"]
+PRUNERS = ["nop", "median", "pct25", "pct75", "sha", "hyperband", "patient_median", "patient_delta", "threshold",
+           "wilcoxon"]
 DISCRETE_ONLY = {"grid", "brute"}
 MO_ONLY = {"nsgaiii"}
 SO_ONLY = {"gp"}
@@ -186,7 +187,7 @@ def is_ga(kind):
     return cls is not None and issubclass(cls, BaseGASampler)
 
 
-def make_pruner(kind, thr=None, mirror=False):
+def make_pruner(kind, thr=None, mirror=False, wil=None):
     """mirror=True: the configuration for the run on the negated objective (value thresholds mirrored)."""
     import optuna.pruners as P
 
@@ -206,6 +207,8 @@ def make_pruner(kind, thr=None, mirror=False):
         return P.PatientPruner(P.MedianPruner(n_startup_trials=1, n_warmup_steps=0), patience=1)
     if kind == "patient_delta":
         return P.PatientPruner(None, patience=1, min_delta=0.25)
+    if kind == "wilcoxon":
+        return P.WilcoxonPruner(p_threshold=wil[0], n_startup_steps=wil[1])
     if kind == "threshold":
         lo, hi = thr
         if mirror:
@@ -238,6 +241,37 @@ def _values(prog, number, nums):
     return vals
 
 
+def _scores(prog, number, nums):
+    """Instance-style programs (WilcoxonPruner's documented use): the trial is evaluated on prog["inst"] problem
+    instances and reports the per-instance score with the instance id as step.  A score is an exact dyadic rational
+    (multiple of 1/65536, magnitude < 64): a per-instance weighted sum of the parameter values quantised to 1/64, plus
+    the instance's base level, plus a term in (trial number, instance) that makes the scores of different trials on
+    one instance - and the differences between two trials over the instances - pairwise distinct."""
+    out = []
+    for step in range(prog["inst"]):
+        s = 0.0
+        for name, x in nums:
+            s += prog["inst_w"][step].get(name, 0.0) * x
+        q = max(-40.0, min(40.0, math.floor(s * 64.0) / 64.0))
+        out.append(q + prog["inst_base"][step] + (number + 1) * (step + 1) / 65536.0)
+    return out
+
+
+def _stat(kind, xs):
+    """The objective of an instance-style program: deliberately not always the mean of what was reported."""
+    ys = sorted(xs)
+    if kind == "median":
+        n = len(ys)
+        return ys[n // 2] if n % 2 else (ys[n // 2 - 1] + ys[n // 2]) / 2.0
+    if kind == "max":
+        return ys[-1]
+    if kind == "min":
+        return ys[0]
+    if kind == "last":
+        return xs[-1]
+    return sum(xs) / len(xs)
+
+
 def run_scenario(sc, conf, workdir):
     """Returns {"events": [...raw events with python floats...], "id_ne_number": bool}."""
     common.use_repo()
@@ -256,7 +290,7 @@ def run_scenario(sc, conf, workdir):
                                     sampler=optuna.samplers.RandomSampler(seed=1))
             o.optimize(lambda t: t.suggest_float("q", 0, 1), n_trials=conf["other"])
         sampler = make_sampler(sc["sampler"], sc["seed"], prog)
-        pruner = make_pruner(sc["pruner"], sc.get("thr"), mirror=bool(flip[0]))
+        pruner = make_pruner(sc["pruner"], sc.get("thr"), mirror=bool(flip[0]), wil=sc.get("wil"))
         kw = {"direction": dirs[0]} if prog["nobj"] == 1 else {"directions": dirs}
         study = optuna.create_study(storage=storage, study_name=sc["study_name"], sampler=sampler, pruner=pruner, **kw)
         best_each = bool(conf.get("best_each"))
@@ -293,11 +327,12 @@ def run_scenario(sc, conf, workdir):
                     st["names"].append(p["name"])
                     nums.append((p["name"], _num(p, v)))
                 trial.set_user_attr("k", {"n": [1, "a", None], "f": 0.5})
-                vals = _values(prog, trial.number, nums)
+                scores = _scores(prog, trial.number, nums) if prog.get("inst") else None
+                vals = _values(prog, trial.number, nums) if scores is None else [_stat(prog["inst_obj"], scores)]
                 if prog["fail_mod"] and int(math.floor(abs(vals[0]) * 1024.0)) % prog["fail_mod"] == 0:
                     raise ScenarioError("deterministic failure")
-                for step in range(prog["reports"]):
-                    r = vals[0] + REPORT_OFFSETS[step]
+                for step in range(prog["reports"] if scores is None else len(scores)):
+                    r = vals[0] + REPORT_OFFSETS[step] if scores is None else scores[step]
                     r = -r if flip[0] else r
                     trial.report(r, step)
                     ev.append({"op": "report", "step": step, "val": r})
@@ -643,6 +678,17 @@ def make_scenario(rng, sid, sampler, pruner, nobj, n_trials, exact=False):
           "study_name": f"study-{sid}"}
     if pruner == "threshold":
         sc["thr"] = [rng.choice([-3.0, -1.0, 0.25]), rng.choice([1.5, 2.75, 6.0])]
+    if pruner == "wilcoxon":
+        # instance-style program: 6-10 instances (= steps, the same ids in every trial), some of them "easy" (high base
+        # level, small weights) and some decisive (large weights); objective = median / max / min / last / mean of the
+        # reported scores.  p_threshold is not a dyadic rational (exact p-values are k / 2^n).
+        names = list(prog["weights"])
+        prog["inst"] = rng.choice([6, 8, 10])
+        prog["inst_w"] = [{n: rng.choice([0.0, 0.25, -0.25, 0.5, 1.0, -1.0, 2.0, -3.0]) * rng.choice([0.25, 1.0, 1.0, 4.0])
+                           for n in names} for _ in range(prog["inst"])]
+        prog["inst_base"] = [rng.choice([0.0, 0.0, 4.0, 8.0]) for _ in range(prog["inst"])]
+        prog["inst_obj"] = rng.choice(["median", "median", "max", "min", "last", "mean"])
+        sc["wil"] = [rng.choice([0.1, 0.2, 0.3]), rng.choice([0, 1, 2, 2])]
     return sc
 
 
